@@ -12,7 +12,7 @@ INVS = ["Agreement", "ResultIsFunctionOfChain", "RestartInfo", "NothingBeforeCom
 
 MODE = {"C01": "replicas", "C06": "failed", "C07": "checks", "C08": "crash"}
 DEVS = {"C01": ["local"], "C06": ["failed"], "C07": ["check"], "C08": ["early", "stale"]}
-FAMILIES = ["base", "stake", "deleg", "alleg", "eth", "erc20", "gov", "ons", "olvm", "bid"]
+FAMILIES = ["base", "stake", "deleg", "alleg", "eth", "erc20", "gov", "ons", "olvm", "olvmfork", "bid"]
 
 
 def model_check(ctx, prop):
